@@ -126,6 +126,23 @@ Section Sets.
       else ([], last_processed + N.of_nat (length msgs))
     end.
 
+  (* the server loop (src/bin/adlt/remote.rs, process_file_context) for one filtered `stream`: every tick calls
+     process_stream_new_msgs(stream, last, &all_msgs[last..], chunk) with last = min(all_msgs_last_processed_len,
+     all_msgs.len()); here all messages are already loaded and the ticks are run until nothing is pending
+     ([fuel] ticks at most).  Result: filtered_msgs, all_msgs_last_processed_len *)
+  Fixpoint stream_rounds (fuel : nat) (c : container) (all : list M) (max_chunk : N) (acc : list N) (last : N)
+    : list N * N :=
+    match fuel with
+    | O => (acc, last)
+    | S f =>
+        let off := N.min last (N.of_nat (length all)) in
+        match skipn (N.to_nat off) all with
+        | [] => (acc, last)
+        | new => let r := process_stream_new c last off new max_chunk in
+                 stream_rounds f c all max_chunk (acc ++ fst r) (snd r)
+        end
+    end.
+
   (* ------------------------------------------------------------ export plugin *)
   (* ExportPlugin::from_json: the shared loop, then, when `lifecyclesToKeep` is not empty, one more negative
      filter ({"type":1,"not":true,"lifecycles":[u32::MAX]}) pushed at the end of the negative vector *)
